@@ -11,38 +11,43 @@ from pv.core import Ob, DISCHARGED, REFUTED, UNDECIDED
 from spec import ebnf
 
 SYMS = ['NAME', 'NUMBER', "'x'", 'b', 'a']
+SYMS4 = ['NAME', "'x'", "'y'", 'b']
+SYMS3 = ['NAME', "'x'", 'b']
 
 
-def trees(size, syms):
-    """All EBNF trees with exactly `size` symbol occurrences (as grammar text)."""
+LEAF_WRAPS = ['%s', '%s*', '%s+', '[%s]']
+OUTER_WRAPS = ['%s', '[%s]', '(%s)*', '(%s)+']
+
+
+def trees(size, syms, wraps=None):
+    """All EBNF bodies with exactly `size` symbol occurrences; every symbol occurrence may carry * + or [] itself."""
+    wraps = wraps or LEAF_WRAPS
     if size == 1:
         for s in syms:
-            yield s
+            for w in wraps:
+                yield w % s
         return
     for k in range(1, size):
-        for l in trees(k, syms):
-            for r in trees(size - k, syms):
+        for l in trees(k, syms, wraps):
+            for r in trees(size - k, syms, wraps):
                 yield '%s %s' % (l, r)
                 yield '(%s | %s)' % (l, r)
-    for t in trees(size - 0, syms) if False else ():
-        yield t
 
 
-def decorate(t):
-    yield t
-    yield '[%s]' % t
-    yield '(%s)*' % t
-    yield '(%s)+' % t
-
-
-def grammars(max_size):
-    bs = ['NAME', "'x' NAME", "NUMBER | 'x'", "NAME+", "'x' [NUMBER]"]
+def grammars(max_size, full=False):
+    bs = ['NAME', "'x' NAME", "NUMBER | 'x'"]
     seen = set()
     for size in range(1, max_size + 1):
-        for t in trees(size, SYMS):
-            for d in decorate(t):
-                # a second level of decoration on sub-sequences is produced by the recursion in trees() via alternatives
-                for b in bs:
+        if size < 3:
+            gen = trees(size, SYMS)
+        elif full:
+            gen = trees(size, SYMS4)
+        else:
+            gen = trees(size, SYMS3, LEAF_WRAPS[:3])
+        for t in gen:
+            for w in OUTER_WRAPS:
+                d = w % t
+                for b in (bs if size < 3 else bs[:1]):
                     txt = 'a: %s NEWLINE\nb: %s\n' % (d, b)
                     if txt not in seen:
                         seen.add(txt)
@@ -94,9 +99,9 @@ def check_one(txt):
     return ('ok', txt, '')
 
 
-def small_grammar_obligations(max_size=3, procs=16):
+def small_grammar_obligations(max_size=3, procs=16, full=False):
     t0 = time.time()
-    gs = list(grammars(max_size))
+    gs = list(grammars(max_size, full))
     ctx = mp.get_context('fork')
     with ctx.Pool(procs) as pool:
         res = pool.map(check_one, gs, chunksize=64)
@@ -112,7 +117,7 @@ def small_grammar_obligations(max_size=3, procs=16):
     stats = dict(evaluations=len(gs), distinct_nontrivial=cnt.get('ok', 0) + cnt.get('rejected', 0), counts=cnt,
                  samples=gs[:3] + gs[-2:],
                  rule='every 2-rule grammar a: <rhs> NEWLINE / b: <one of 5 bodies> with <rhs> an EBNF tree of <= %d symbol '
-                      'occurrences over %r combined by sequence, alternation and one outer [] ()* ()+; grammars with a '
+                      'occurrences over %r (each occurrence plain, starred or optional) combined by sequence, alternation and one outer [] ()* ()+; grammars with a '
                       'nullable rule are skipped; non-trivial = accepted with certificates or rejected as expected' % (max_size, SYMS))
     if not fails:
         return [Ob(name, 'B', 'runtime-contract', DISCHARGED, dt,
